@@ -327,6 +327,27 @@ if E.Path.lookup.__module__ != __name__:
     E.Path.lookup = lookup
 
 
+# ---------------------------------------------------------------------------
+# fresh_int() in a ghost effect is a havoc ("this stub may or may not raise, independently at every call").  Natively it
+# returns 0, so a counter-model that needs another value cannot be replayed: that is an abstraction, not a disagreement
+# between the engine and CPython -- mark it, so that such a witness is reported as undecided (exit 2) instead of as a
+# checker error (exit 3).
+# ---------------------------------------------------------------------------
+from . import contracts as _C  # noqa: E402
+from . import seqspec as _SS  # noqa: E402
+
+_orig_fresh_int = _SS.SPEC_FORMS[_C.fresh_int]
+
+
+def q_fresh_int(ex, args, kwargs):
+    ex.abstraction_used = True
+    return _orig_fresh_int(ex, args, kwargs)
+
+
+if getattr(_orig_fresh_int, '__module__', '') != __name__:
+    _SS.SPEC_FORMS[_C.fresh_int] = q_fresh_int
+
+
 import os as _os  # noqa: E402
 
 if _os.environ.get('PYVC_DEBUG_WHY'):
